@@ -118,6 +118,18 @@ DIRECTIONS = {
         "snapshotenv.go,message.go,rate.go,partition.go}, internal/fileutil, internal/utils/dio, raftpb/*.go (hand written codecs), "
         "client/session.go, config/config.go (validation), tools/import.go - and break the property there with a plausible maintainer "
         "mistake that needs something specific to manifest. Say in meta.json why that file matters for the property."),
+    "apilayer": (
+        "many other engineers already produced changes for this property inside the raft core, the replicated state machine layer and "
+        "the log stores. Your change must be in the layer BETWEEN the public API and those cores: nodehost.go (replica lifecycle: "
+        "start / stop / restart / removal, request routing, lookup of the node instance a request belongs to, tick and message delivery, "
+        "snapshot / compaction / membership requests, NodeHost.Close), snapshotter.go, snapshotstate.go, quiesce.go, queue.go, "
+        "internal/server/*.go, internal/transport/{transport.go,job.go,nodes.go}, internal/rsm/{managed.go,offload.go,taskqueue.go,"
+        "sessionmanager.go,adapter.go}, client/session.go, config/config.go. It must NOT touch internal/raft/*, request.go, node.go, "
+        "engine.go, internal/rsm/statemachine.go, internal/logdb/*, internal/tan/*. Break the property there with a plausible maintainer "
+        "mistake (a refactor that re-resolves something that must be pinned, a lifecycle step skipped for an already stopped / removed / "
+        "restarted replica, a lock released too early, a check moved after a side effect, a queue that loses or reorders an item under a "
+        "rare condition) that needs something specific to manifest through the public NodeHost API. Say in meta.json why that file "
+        "matters for the property."),
 }
 
 PROMPT = """You are a skeptical senior Go engineer doing mutation-style robustness research on the open-source library lni/dragonboat (a multi-group Raft library in Go). Work ONLY inside your own scratch git worktree of the repository at {wt} (create it with: `git -C /repo worktree add {wt} HEAD`). Do NOT modify /repo itself, and do NOT read, list or use anything under /verif (it is off limits for this task). The sandbox is offline; use `export GOFLAGS=-mod=mod GOPROXY=off GOSUMDB=off GOTOOLCHAIN=local` for every go command. Put scratch files under {out}/ only.
